@@ -577,7 +577,7 @@ func tailStr(s string, n int) string {
 
 func TestC20(t *testing.T) {
 	ev := vlib.NewEvidence("C20", "exploration",
-		"real agent.Agent with a scripted pool: random sequences of Start (pool healthy / failing at connect / failing at the first keep-alive), Stop (with the outcome collected by Wait or left uncollected), a keep-alive failing while running, forced UpdatePeers; the number of live keep-alive loops is observed directly after every step by counting agent.(*Agent).serveUpdates frames in a dump of all goroutine stacks; concurrent Starts; keep-alive cadence (count per window vs the logical ticker bound; against a pool that takes 60 % of the interval to answer, compared with a reference ticker loop doing the same waiting at the same time); an 11.5 s run against a pool that honours request contexts; the built vipnode binary run with --update-interval in {4s,5s,6s,60s,119s,120s,121s,10m,junk,-1s,0} against an in-memory pool and a fake node, accepted runs stopped with SIGINT; thorough tier: the built agent at --update-interval=110s against the built pool, a client polling for peers every 5 s for 125 s must be offered the host every time; non-trivial = a sequence with at least one successful start and a refused second start or a restart; distinct = distinct traces")
+		"real agent.Agent with a scripted pool: random sequences of Start (pool healthy / failing at connect / failing at the first keep-alive), Stop (with the outcome collected by Wait or left uncollected), a keep-alive failing while running, forced UpdatePeers; the number of live keep-alive loops is observed directly after every step by counting agent.(*Agent).serveUpdates frames in a dump of all goroutine stacks; concurrent Starts; keep-alive cadence (count per window vs the logical ticker bound; against a pool that takes 60 % of the interval to answer, compared with a reference ticker loop doing the same waiting at the same time); an 11.5 s run against a pool that honours request contexts; the built vipnode binary run with --update-interval in {4s,5s,6s,60s,119s,120s,121s,10m,junk,-1s,0} against an in-memory pool and a fake node, accepted runs stopped with SIGINT; the built agent at --update-interval=100s against the built pool, a client polling for peers every 5 s for 125 s must be offered the host every time; non-trivial = a sequence with at least one successful start and a refused second start or a restart; distinct = distinct traces")
 	ev.Assume("Stop is only called while a loop is running (Stop on an idle agent blocks by design of the API and is not part of the statement)")
 	for i := 0; i < vlib.Scale(300, 8000); i++ {
 		c20Sequence(ev, i)
@@ -597,9 +597,7 @@ func TestC20(t *testing.T) {
 	cliDone := make(chan struct{})
 	go func() {
 		c20CLI(ev)
-		if vlib.Thorough() {
-			c20AcceptedIntervalStaysWithinExpiry(ev)
-		}
+		c20AcceptedIntervalStaysWithinExpiry(ev)
 		close(cliDone)
 	}()
 	c20LongRun(ev)
